@@ -77,6 +77,18 @@ CHECKS = {
         "Poisson, Normal, LogNormal on parameter grids.",
         "the distribution part is a grid, not a domain proof; degenerate linear-extrapolation ends excluded; float tolerances 1e-5..1e-3",
     ),
+    "C03": (
+        "model_checking", "DESIGN.md §3 C03",
+        "exhaustive input-history trie (all histories of length <= T over a 5-letter adversarial alphabet) on the real neuron "
+        "classes, with a history monitor and the documented one-step equation as oracles",
+        "For all eight neuron classes x 2 hyper-parameter sets x dt {1,0.5} x refrac_t {0,.5,1,1.5,2,3}dt x refrac_lock x adaptation "
+        "on/off, every input history of length 4 (quick) / 6 (thorough) over {0, just-below-threshold, just-above-threshold, 1e6, "
+        "strongly negative} is stepped on the real neuron; each step is checked against a history monitor (silent window, locked "
+        "voltage, refrac>=0, spike attribute == output) and against the documented update/threshold/reset equation in float64; the "
+        ">= comparator is checked on exactly representable states.",
+        "float32 rounding tolerated at 1e-4 of the largest summed term; inputs outside the alphabet and T beyond the bound not covered; "
+        "batch size 1 (batch independence is C11)",
+    ),
 }
 
 PENDING_REASON = "check not built yet in this session (claimed in DESIGN.md; will move to checks when its exploration exists)"
